@@ -20,8 +20,9 @@ CONSTANTS FullRank,     \* pair patterns with both ranks <= FullRank are enumera
           HiKeep,       \* keep 1 of HiKeep patterns that have an operand of higher rank (up to 4); 1 = all
           V1Keep,       \* keep the second extent assignment for 1 of V1Keep patterns; 1 = all
           CKeep, XKeep, \* keep 1 of .. patterns for the contraction<> form / the explicit-output form
-          MoreTypes,    \* 0: f64, i32    1: also f32, i64, c64 on a hash sample (1 of TKeep)
+          MoreTypes,    \* 0: f64, i32    1: also f32, i64, c64 on a hash sample of the patterns (1 of TKeep), one extent assignment
           TKeep,
+          I32Both,      \* 1: i32 gets the same extent assignments as f64    0: one of them (by hash)
           Budget        \* bound on the number of multiply-adds of a case (product of the extents of all labels)
 VARIABLE c
 Seed == atoi(IOEnv.VERIF_SEED)
@@ -85,8 +86,11 @@ IsFull(p) == Len(p.la) <= FullRank /\ Len(p.lb) <= FullRank
 \* (einsum_meta.h:602/603 "array subscript value is outside the bounds") -- see EinsumDispatch!Offered
 KeptPats == { p \in PairPats : Offered(p.la, p.lb) /\ (IsFull(p) \/ H(p.la, p.lb, 1) % HiKeep = 0) }
 Variants(p) == IF IsFull(p) THEN {0} \cup (IF H(p.la, p.lb, 2) % V1Keep = 0 THEN {1} ELSE {}) ELSE {H(p.la, p.lb, 3) % 2}
+OneOf(S, h) == IF Cardinality(S) <= 1 THEN S ELSE {h % 2}
+VariantsT(p, T) == IF T = "f64" \/ (T = "i32" /\ I32Both = 1) THEN Variants(p) ELSE OneOf(Variants(p), H(p.la, p.lb, 21 + TSalt(T)))
 
-EinsumCases == UNION { { Case("einsum", T, p.la, p.lb, v, H(p.la, p.lb, 4 + v), FALSE) : v \in Variants(p), T \in {T \in TypesA \cup TypesB : KeepT(T, p.la, p.lb)} } : p \in KeptPats }
+EinsumCases == UNION { { Case("einsum", T, p.la, p.lb, v, H(p.la, p.lb, 4 + v), FALSE) :
+                           v \in IF KeepT(T, p.la, p.lb) THEN VariantsT(p, T) ELSE {} } : p \in KeptPats, T \in TypesA \cup TypesB }
 \* contraction<I,J>(a,b): same patterns (it has no not-offered patterns of its own in the default variant), sampled
 ContractionCases == { Case("contraction", T, p.la, p.lb, H(p.la, p.lb, 5) % 2, H(p.la, p.lb, 6), FALSE) :
                         p \in {p \in PairPats : Len(p.la) <= 3 /\ Len(p.lb) <= 3 /\ H(p.la, p.lb, 7) % CKeep = 0}, T \in TypesA }
